@@ -88,6 +88,19 @@ def run(ctx):
                 k = sum(1 for o in ctx.obls if o.key.startswith('peer-count@%s' % b.root))
                 ctx.ob('SIZE-GATE', 'peer-count@%s#%d' % (b.root, k), st == 'capped', cs.where(),
                        'count of an inbound FindNode handed to the table lookup: %s' % detail, entry=b.root)
+    # "stored values are at most 512 bytes" on every path by which a peer's bytes can reach the store (also the value a reply
+    # to our own get carries): these are C03's closed-world rules about who may write DataStore and under which gate
+    from props import c03 as C03
+    import runner as _runner
+    sub = _runner.Ctx('C03', prog, ctx.tier, ctx.progs)
+    try:
+        C03.run(sub)
+        for o in sub.obls:
+            if o.rule in ('WHO-WRITES', 'SIZE-GATE') or o.key == 'get:cache-through-gated-store':
+                ctx.ob('VALUE-CAP', 'store:%s' % o.key, o.ok, o.where, o.detail, entry=o.entry)
+    except Exception as e:  # pragma: no cover - fail closed
+        ctx.ob('VALUE-CAP', 'store:rules-ran', False, '-', 'the store-path rules could not be evaluated: %s' % e)
+    ctx.floor('VALUE-CAP', 3)
     ctx.floor('SIZE-GATE', 8)
 
     # ---- 2. timestamp window
